@@ -532,6 +532,9 @@ func c06Directed() []c06Script {
 		S(c06Set(xhttp2.SettingMaxConcurrentStreams, 3), c06Set(xhttp2.SettingInitialWindowSize, 70000)), ping)
 	addNoWake("wake-slot-freed", strict, S(c06Set(xhttp2.SettingMaxConcurrentStreams, 1)), open(0, true, 0), open(0, true, 0), ph(0, true), open(0, true, 0), c06Op{kind: "pr", s: 1, b: 8},
 		open(100, true, 0), cancel(2), ph(3, false), pd(3, 10, 0, false), open(0, true, 0), feed(3), pd(3, 10, 0, true), open(0, true, 0), wu(4, 0), ping)
+	// (before the peer's first SETTINGS frame the limit is 100; a first frame without
+	// MAX_CONCURRENT_STREAMS raises it to the default of 1000: that must wake the 101st request)
+	addNoWake("wake-first-settings-default", strict, cat(rep(100, open(0, true, 0)), []c06Op{open(0, true, 0), S(), ph(0, true), ping})...)
 	addNoWake("wake-goaway", strict, S(c06Set(xhttp2.SettingMaxConcurrentStreams, 1)), open(0, true, 0), open(0, true, 0), c06Op{kind: "pg", s: -1, a: 1}, ph(0, true))
 	// 21. header blocks and trailer blocks of exactly k frames (END_HEADERS on a full frame)
 	for _, c := range []c06Cfg{def, chrome} {
